@@ -61,6 +61,19 @@ try:
                   and ("remoc::tests::" + t) not in json.load(open("/root/.vp/BASELINE.json"))["stable_pass"]
                   and not t.startswith("remoc/src")}
     base = {t for t in ok0 | bad0 if t not in demo_tests}
+    flaky = sorted(base & bad1)
+    if flaky and len(flaky) <= 6:
+        # a baseline test that fails under machine load (timeouts) may be re-run once, on its own
+        still = []
+        for t in flaky:
+            rc2, out2 = sh(f"cargo test --offline -p remoc --test tests -- {t} --exact 2>&1", cwd=wt)
+            ok2, bad2 = results(out2)
+            if t in ok2:
+                ok1.add(t)
+                bad1.discard(t)
+            else:
+                still.append(t)
+        res["baseline_rerun"] = {"rerun": flaky, "still_failing": still}
     res["demo_tests"] = sorted(demo_tests)
     res["demo_passes_without_patch"] = bool(demo_tests) and not (demo_tests & bad0)
     res["demo_fails_with_patch"] = bool(demo_tests & bad1)
